@@ -386,6 +386,21 @@ bool ReadAll(int fd, void* buf, size_t n) {
   return true;
 }
 
+#ifdef VF_PLAIN_MAIN
+// rel worker only (no sanitizer): print the stack of a fatal signal so that the parent can group crashes by site and
+// needs the (slow) ASan re-run only once per site
+void CrashHandler(int sig) {
+  static const char msg[] = "VF-CRASH fatal signal in the rel worker, stack:\n";
+  ssize_t w = write(2, msg, sizeof msg - 1);
+  (void)w;
+  void* frames[40];
+  int n = backtrace(frames, 40);
+  backtrace_symbols_fd(frames, n, 2);
+  signal(sig, SIG_DFL);
+  raise(sig);
+}
+#endif
+
 int Worker(int rfd, int wfd) {
   Install();
   FILE* out = fdopen(wfd, "w");
@@ -408,6 +423,9 @@ int Worker(int rfd, int wfd) {
     if (pid < 0) return 4;
     if (pid == 0) {
       prctl(PR_SET_PDEATHSIG, SIGKILL);
+#ifdef VF_PLAIN_MAIN
+      for (int sg : {SIGSEGV, SIGABRT, SIGBUS, SIGFPE, SIGILL}) signal(sg, CrashHandler);
+#endif
       alarm((flags & 4) ? 300 : 60);
       Result r;
       RunOne(buf.data(), len, (flags & 1) != 0, (flags & 2) != 0, r);
